@@ -80,21 +80,24 @@ theorem appendFloat_eq {S SR : Type} (segAt : SR → Int → S) (segRect : S →
 
 /-! ## counted loops over a slot array -/
 
-theorem loopM_range'_slots {α σ : Type} (f : σ → α → σ) (body : Int → σ → Option σ) (xs : List α) :
-    ∀ (n l : Nat) (s : σ), l + n ≤ xs.length →
-      (∀ k, l ≤ k → k < l + n → ∀ (h : k < xs.length) s, body (Int.ofNat k) s = some (f s xs[k])) →
+theorem loopM_range'_slots {α σ : Type} (P : σ → Prop) (f : σ → α → σ) (body : Int → σ → Option σ)
+    (xs : List α) :
+    ∀ (n l : Nat) (s : σ), l + n ≤ xs.length → P s →
+      (∀ k, l ≤ k → k < l + n → ∀ (h : k < xs.length) s, P s →
+        body (Int.ofNat k) s = some (f s xs[k]) ∧ P (f s xs[k])) →
       loopM ((List.range' l n).map Int.ofNat) s body = some (((xs.drop l).take n).foldl f s) := by
   intro n
   induction n with
-  | zero => intro l s _ _; simp [loopM]
+  | zero => intro l s _ _ _; simp [loopM]
   | succ n ih =>
-    intro l s hl hb
+    intro l s hl hp hb
     have hlt : l < xs.length := by omega
     rw [List.range'_succ, List.map_cons]
     simp only [loopM]
-    rw [hb l (Nat.le_refl _) (by omega) hlt s]
+    rw [(hb l (Nat.le_refl _) (by omega) hlt s hp).1]
     simp only []
-    rw [ih (l + 1) (f s xs[l]) (by omega) (fun k h1 h2 h s => hb k (by omega) (by omega) h s)]
+    rw [ih (l + 1) (f s xs[l]) (by omega) (hb l (Nat.le_refl _) (by omega) hlt s hp).2
+      (fun k h1 h2 h s => hb k (by omega) (by omega) h s)]
     rw [List.drop_eq_getElem_cons hlt, List.take_succ_cons, List.foldl_cons]
 
 theorem intRange_eq_range' (lo hi : Int) (h0 : 0 ≤ lo) :
@@ -109,14 +112,14 @@ theorem intRange_eq_range' (lo hi : Int) (h0 : 0 ≤ lo) :
   omega
 
 /-- `for i := lo; i < hi; i++ { s = f(s, xs[i]) }` is a fold over `xs[lo:hi]` (and never panics) -/
-theorem loopM_slots {α σ : Type} (f : σ → α → σ) (body : Int → σ → Option σ) (xs : List α)
-    (lo hi : Int) (s : σ) (h0 : 0 ≤ lo) (hh : hi.toNat ≤ xs.length)
-    (hb : ∀ k (h : k < xs.length) s, body (Int.ofNat k) s = some (f s xs[k])) :
+theorem loopM_slots {α σ : Type} (P : σ → Prop) (f : σ → α → σ) (body : Int → σ → Option σ)
+    (xs : List α) (lo hi : Int) (s : σ) (h0 : 0 ≤ lo) (hh : hi.toNat ≤ xs.length) (hp : P s)
+    (hb : ∀ k (h : k < xs.length) s, P s → body (Int.ofNat k) s = some (f s xs[k]) ∧ P (f s xs[k])) :
     loopM (intRange lo hi) s body
       = some (((xs.drop lo.toNat).take (hi.toNat - lo.toNat)).foldl f s) := by
   rw [intRange_eq_range' lo hi h0]
   by_cases hle : lo.toNat ≤ hi.toNat
-  · exact loopM_range'_slots f body xs _ _ s (by omega) (fun k _ _ h s => hb k h s)
+  · exact loopM_range'_slots P f body xs _ _ s (by omega) hp (fun k _ _ h s => hb k h s)
   · have : hi.toNat - lo.toNat = 0 := by omega
     rw [this]; simp [loopM]
 
@@ -134,6 +137,7 @@ def ofT (t : Dyn F × F × F × F × F) : IGen.RRect F := .mk t.1 t.2.1 t.2.2.1 
 omit [KNum F] [Carrier F] [Compat F] in
 theorem ofT_toT (r : IGen.RRect F) : ofT (toT r) = r := by cases r; rfl
 
+omit [Carrier F] [Compat F] in
 theorem foldl_expand_toT (l : List (IGen.RRect F)) (r : IGen.RRect F) :
     l.foldl (fun s e => toT (IGen.rRect_expand ops (ofT s) e)) (toT r)
       = toT (l.foldl (IGen.rRect_expand ops) r) := by
@@ -159,13 +163,213 @@ theorem recalc_eq (r : IGen.RRect F) (nd : IGen.RNode F) (h : r.data = .rNode nd
   | mk rd r0 r1 r2 r3 =>
   simp only [IGen.RRect.data] at h
   subst h
+  cases nd with
+  | mk cnt rects =>
   obtain ⟨hlen, hc0, hc17⟩ := hs
-  have h0 : 0 < nd.rects.length := by omega
+  simp only [IGen.RNode.count, IGen.RNode.rects] at hlen hc0 hc17 hc
+  cases rects with
+  | nil => simp at hlen
+  | cons e0 rest =>
+  obtain ⟨c, hcc⟩ : ∃ c : Nat, cnt.toNat = c + 1 := ⟨cnt.toNat - 1, by omega⟩
   unfold IGen.rRect_recalc
-  simp only [Option.bind_eq_bind, Option.bind_some, bind, pure, Dyn.asRNode]
-  have e0 : listAt nd.rects 0 = some nd.rects[0] := listAt_ofNat nd.rects 0 h0
-  simp only [e0, Option.bind_some]
-  trace_state
-  sorry
+  simp only [Option.bind_some, bind, Dyn.asRNode, IGen.RNode.count, IGen.RNode.rects]
+  have e0' : listAt (e0 :: rest) 0 = some e0 := rfl
+  simp only [e0', Option.bind_some]
+  rw [loopM_slots (fun s => s.1 = Dyn.rNode (IGen.RNode.mk cnt (e0 :: rest)))
+    (fun s e => toT (IGen.rRect_expand ops (ofT s) e)) _ (e0 :: rest) 1 cnt _ (by omega)
+    (by simp only [List.length_cons] at hlen ⊢; omega) rfl ?_]
+  · have hL : List.take (cnt.toNat - Int.toNat 1) (List.drop (Int.toNat 1) (e0 :: rest))
+        = rest.take c := by
+      have h1 : Int.toNat 1 = 1 := rfl
+      rw [h1, hcc]; simp
+    rw [hL, show (Dyn.rNode (IGen.RNode.mk cnt (e0 :: rest)), e0.min0, e0.min1, e0.max0, e0.max1)
+        = toT (IGen.RRect.mk (Dyn.rNode (IGen.RNode.mk cnt (e0 :: rest))) e0.min0 e0.min1 e0.max0 e0.max1)
+        from rfl, foldl_expand_toT]
+    refine ⟨ofT _, rfl, ?_, ?_⟩
+    · rw [ofT_toT, (foldl_expand_eq ops _ _).2]; rfl
+    · rw [ofT_toT, (foldl_expand_eq ops _ _).1]
+      simp only [usedSlots, IGen.RNode.rects, IGen.RNode.count, hcc, List.take_succ_cons,
+        List.map_cons, recalcBoxes]
+      rfl
+  · intro k hk s hp
+    obtain ⟨a, b, c, d, e⟩ := s
+    simp only at hp
+    subst hp
+    simp only [listAt_ofNat _ _ hk, Option.bind_some]
+    have hd := (expand_eq ops (IGen.RRect.mk (Dyn.rNode (IGen.RNode.mk cnt (e0 :: rest))) b c d e)
+      (e0 :: rest)[k]).2
+    rw [show ofT (Dyn.rNode (IGen.RNode.mk cnt (e0 :: rest)), b, c, d, e)
+      = IGen.RRect.mk (Dyn.rNode (IGen.RNode.mk cnt (e0 :: rest))) b c d e from rfl]
+    revert hd
+    generalize IGen.rRect_expand ops _ _ = q
+    intro hd
+    cases q
+    exact ⟨rfl, hd⟩
+
+/-! ## chooseLeastEnlargement -/
+
+/-- a counted loop over a slot array simulates a fold of the model, through a relation `R` between
+    the loop state and the model's accumulator that may mention the index -/
+theorem loopM_sim {α σ τ : Type} (R : Nat → σ → τ → Prop) (g : τ → α → τ)
+    (body : Int → σ → Option σ) (xs : List α)
+    (hb : ∀ k (h : k < xs.length) s t, R k s t →
+      ∃ s', body (Int.ofNat k) s = some s' ∧ R (k + 1) s' (g t xs[k])) :
+    ∀ (n l : Nat) (s : σ) (t : τ), l + n ≤ xs.length → R l s t →
+      ∃ s', loopM ((List.range' l n).map Int.ofNat) s body = some s' ∧
+        R (l + n) s' (((xs.drop l).take n).foldl g t) := by
+  intro n
+  induction n with
+  | zero => intro l s t _ hr; exact ⟨s, by simp [loopM], by simpa using hr⟩
+  | succ n ih =>
+    intro l s t hl hr
+    have hlt : l < xs.length := by omega
+    obtain ⟨s1, hs1, hr1⟩ := hb l hlt s t hr
+    obtain ⟨s2, hs2, hr2⟩ := ih (l + 1) s1 (g t xs[l]) (by omega) hr1
+    refine ⟨s2, ?_, ?_⟩
+    · rw [List.range'_succ, List.map_cons]
+      simp only [loopM]
+      rw [hs1]
+      exact hs2
+    · rw [List.drop_eq_getElem_cons hlt, List.take_succ_cons, List.foldl_cons]
+      have : l + (n + 1) = l + 1 + n := by omega
+      rw [this]
+      exact hr2
+
+/-- the model's `step` of `chooseLeast` -/
+def clStep (b : GBox F) (acc : Option (Nat × F × F) × Nat) (r : GBox F) : Option (Nat × F × F) × Nat :=
+  let i := acc.2
+  let area := Carrier.mul (Carrier.sub r.maxx r.minx) (Carrier.sub r.maxy r.miny)
+  let ex (bmin bmax rmin rmax : F) : F :=
+    if Carrier.lt rmax bmax then
+      if Carrier.lt bmin rmin then Carrier.sub bmax bmin else Carrier.sub bmax rmin
+    else
+      if Carrier.lt bmin rmin then Carrier.sub rmax bmin else Carrier.sub rmax rmin
+  let enlargedArea := Carrier.mul (Carrier.mul Carrier.one (ex b.minx b.maxx r.minx r.maxx))
+    (ex b.miny b.maxy r.miny r.maxy)
+  let enlargement := Carrier.sub enlargedArea area
+  match acc.1 with
+  | none => (some (i, enlargement, area), i+1)
+  | some (j, je, ja) =>
+    if Carrier.lt enlargement je then (some (i, enlargement, area), i+1)
+    else if feq enlargement je then
+      if Carrier.lt area ja then (some (i, enlargement, area), i+1) else (some (j, je, ja), i+1)
+    else (some (j, je, ja), i+1)
+
+omit [KNum F] [Compat F] in
+theorem chooseLeast_clStep (rects : List (GBox F)) (b : GBox F) :
+    chooseLeast rects b = match (rects.foldl (clStep b) (none, 0)).1 with
+      | some (j, _, _) => j
+      | none => 0 := rfl
+
+/-- the relation between the loop state `(j, jenlargement, jarea)` at index `k` and the model's
+    accumulator: Go's `j == -1` is the model's `none` -/
+def clRel (k : Nat) (s : Int × F × F) (t : Option (Nat × F × F) × Nat) : Prop :=
+  t.2 = k ∧ ((k = 0 ∧ t.1 = none ∧ s.1 = -1) ∨
+    ∃ j je ja, t.1 = some (j, je, ja) ∧ s = (Int.ofNat j, je, ja))
+
+omit [KNum F] [Carrier F] [Compat F] in
+theorem ite_some_some {α : Type} (c : Prop) [Decidable c] (a b : α) :
+    (if c then some a else some b) = some (if c then a else b) := by
+  split <;> rfl
+
+/-- the per-dimension factor of the enlarged area, in the source's float operations -/
+def exK (bmin bmax rmin rmax : F) : F :=
+  if (rmax <ₖ bmax) then
+    if (bmin <ₖ rmin) then bmax -ₖ bmin else bmax -ₖ rmin
+  else
+    if (bmin <ₖ rmin) then rmax -ₖ bmin else rmax -ₖ rmin
+
+omit [KNum F] [Carrier F] [Compat F] in
+theorem bind_of_sim {σ β : Type} (L : Option σ) (k : σ → Option β) (Q : σ → Prop) (v : Option β)
+    (h1 : ∃ s', L = some s' ∧ Q s') (h2 : ∀ s', Q s' → k s' = v) : L.bind k = v := by
+  obtain ⟨s', hL, hq⟩ := h1
+  rw [hL]
+  exact h2 s' hq
+
+theorem chooseLeast_eq [CompatEq F] (r b : IGen.RRect F) (nd : IGen.RNode F)
+    (h : r.data = .rNode nd) (hs : SlotsOK nd) (hc : 1 ≤ nd.count) :
+    IGen.rRect_chooseLeastEnlargement ops r b
+      = some (Int.ofNat (chooseLeast ((usedSlots nd).map rbox) (rbox b))) := by
+  cases r with
+  | mk rd r0 r1 r2 r3 =>
+  simp only [IGen.RRect.data] at h
+  subst h
+  cases nd with
+  | mk cnt rects =>
+  obtain ⟨hlen, hc0, hc17⟩ := hs
+  simp only [IGen.RNode.count, IGen.RNode.rects] at hlen hc0 hc17 hc
+  unfold IGen.rRect_chooseLeastEnlargement
+  simp only [Option.bind_some, bind, Dyn.asRNode, IGen.RNode.count, IGen.RNode.rects]
+  have h02 : intRange 0 2 = [0, 1] := rfl
+  have arr0 : ∀ x y : F, arrSel2 x y 0 = some x := fun _ _ => rfl
+  have arr1 : ∀ x y : F, arrSel2 x y 1 = some y := fun _ _ => rfl
+  rw [intRange_eq_range' 0 cnt (by omega)]
+  refine bind_of_sim _ _ _ _ (loopM_sim clRel (fun t e => clStep (rbox b) t (rbox e)) _ rects ?_
+    (cnt.toNat - Int.toNat 0) (Int.toNat 0) _ (none, 0) ?_ ?_) ?_
+  · intro k hk s t hr
+    obtain ⟨j, je, ja⟩ := s
+    obtain ⟨acc, idx⟩ := t
+    obtain ⟨hidx, hr⟩ := hr
+    simp only at hidx
+    subst hidx
+    simp only [listAt_ofNat _ _ hk, Option.bind_some]
+    generalize hEA : loopM (intRange 0 2) _ _ = EA
+    have hEA' : EA = some (((KNum.ofNat 1 : F) *ₖ exK b.min0 b.max0 rects[idx].min0 rects[idx].max0)
+        *ₖ exK b.min1 b.max1 rects[idx].min1 rects[idx].max1) := by
+      rw [← hEA, h02]
+      simp only [loopM, arr0, arr1, Option.bind_some, exK, KNum.gt]
+      by_cases c1 : (rects[idx].max0 <ₖ b.max0) = true <;>
+        by_cases c2 : (b.min0 <ₖ rects[idx].min0) = true <;>
+        by_cases c3 : (rects[idx].max1 <ₖ b.max1) = true <;>
+        by_cases c4 : (b.min1 <ₖ rects[idx].min1) = true <;>
+        simp [c1, c2, c3, c4]
+    subst hEA'
+    clear hEA
+    simp only [Option.bind_some, clStep, rbox, Compat.lt, Compat.sub, Compat.mul, Compat.one,
+      ← CompatEq.eq, exK]
+    generalize (rects[idx].max0 -ₖ rects[idx].min0) *ₖ (rects[idx].max1 -ₖ rects[idx].min1) = area
+    generalize (KNum.sub _ area) = enl
+    rcases hr with ⟨_, hnone, hj⟩ | ⟨j', je', ja', hacc, hs⟩
+    · simp only at hnone hj
+      subst hnone; subst hj
+      exact ⟨_, by simp, rfl, Or.inr ⟨idx, enl, area, rfl, rfl⟩⟩
+    · simp only at hacc
+      subst hacc
+      simp only [Prod.mk.injEq] at hs
+      obtain ⟨rfl, rfl, rfl⟩ := hs
+      have hne : (Int.ofNat j' == (-1 : Int)) = false := by
+        simp only [Int.ofNat_eq_natCast, beq_eq_false_iff_ne, ne_eq]
+        omega
+      simp only [hne, Bool.false_or]
+      by_cases c1 : (enl <ₖ je) = true
+      · simp only [c1, if_true]
+        exact ⟨_, rfl, rfl, Or.inr ⟨_, _, _, rfl, rfl⟩⟩
+      · by_cases c2 : (enl ==ₖ je) = true
+        · by_cases c3 : (area <ₖ ja) = true
+          · simp only [c1, c2, c3, if_true]
+            exact ⟨_, rfl, rfl, Or.inr ⟨_, _, _, rfl, rfl⟩⟩
+          · simp only [c1, c2, c3, if_true]
+            exact ⟨_, rfl, rfl, Or.inr ⟨_, _, _, rfl, rfl⟩⟩
+        · simp only [c1, c2]
+          exact ⟨_, rfl, rfl, Or.inr ⟨_, _, _, rfl, rfl⟩⟩
+  · simp only [Int.toNat_zero]; omega
+  · exact ⟨rfl, Or.inl ⟨rfl, rfl, rfl⟩⟩
+  · intro s' hq
+    obtain ⟨_, hq⟩ := hq
+    simp only [Int.toNat_zero, Nat.zero_add, Nat.sub_zero, List.drop_zero] at hq
+    rcases hq with ⟨hz, _, _⟩ | ⟨j', je', ja', ht, hs'⟩
+    · omega
+    · subst hs'
+      rw [chooseLeast_clStep]
+      simp only [usedSlots, IGen.RNode.rects, IGen.RNode.count, List.foldl_map]
+      rw [ht]
 
 end Geo.IGlue
+
+#print axioms Geo.IGlue.expand_eq
+#print axioms Geo.IGlue.contains_eq
+#print axioms Geo.IGlue.intersects_eq
+#print axioms Geo.IGlue.largestAxis_eq
+#print axioms Geo.IGlue.recalc_eq
+#print axioms Geo.IGlue.chooseLeast_eq
+#print axioms Geo.IGlue.appendFloat_eq
